@@ -30,38 +30,40 @@ theorem unpack1_singleton {α : Type} {l : List α} (h : l.length = 1) : ∃ x, 
     | cons _ _ => simp at h
 
 /-- `_validate_matrix_channel`: the `[block_format] = ...` follows the length check -/
-theorem validateMatrixChannel_noInt (c : Channel) : NoInt (validateMatrixChannel c) := by
+theorem validateMatrixChannel_noInt (ci : Nat) (c : Channel) : NoInt (validateMatrixChannel ci c) := by
   unfold validateMatrixChannel
   split
-  · exact noInt_adm _
+  · exact noInt_adm _ _
   · rename_i hl
     obtain ⟨b, _, hb⟩ := unpack1_singleton (l := c.blocks) (by simpa using hl)
     rw [hb]
     simp only
-    refine forE_noInt ?_
-    intro co _; nis
+    split
+    · exact noInt_adm _ _
+    · refine forE_noInt ?_
+      intro co _; nis
 
-theorem validateMatrixChannel_ok {c : Channel} (h : validateMatrixChannel c = .ok ()) : c.blocks.length = 1 := by
+theorem validateMatrixChannel_ok {ci : Nat} {c : Channel} (h : validateMatrixChannel ci c = .ok ()) : c.blocks.length = 1 := by
   unfold validateMatrixChannel at h
   split at h
   · cases h
   · rename_i hl; simpa using hl
 
 /-- the guard of commit 592dfc9 makes `matrix.type_of(apf_encode)` total -/
-theorem validateEncodeRef_noInt (d : Doc) (e : Nat) : NoInt (validateEncodeRef d e) := by
+theorem validateEncodeRef_noInt (d : Doc) (pi e : Nat) : NoInt (validateEncodeRef d pi e) := by
   unfold validateEncodeRef
   dsimp only
   split
-  · exact noInt_adm _
+  · exact noInt_adm _ _
   · split
-    · exact noInt_adm _
+    · exact noInt_adm _ _
     · rename_i hio
       obtain ⟨t, ht⟩ := typeOf_total (p := d.pack e) (by simpa using hio)
       rw [ht]
       simp only
       nis
 
-theorem validateEncodeRef_ok {d : Doc} {e : Nat} (h : validateEncodeRef d e = .ok ()) :
+theorem validateEncodeRef_ok {d : Doc} {pi e : Nat} (h : validateEncodeRef d pi e = .ok ()) :
     (d.pack e).type = .matrix ∧ typeOf (d.pack e) = .ok .encode := by
   unfold validateEncodeRef at h
   dsimp only at h
@@ -80,10 +82,10 @@ theorem validateEncodeRef_ok {d : Doc} {e : Nat} (h : validateEncodeRef d e = .o
           have : t = .encode := by simpa using hne
           rw [ht, this]
 
-theorem validateMatrixApfRefs_noInt (d : Doc) (p : Pack) : NoInt (validateMatrixApfRefs d p) := by
+theorem validateMatrixApfRefs_noInt (d : Doc) (pi : Nat) (p : Pack) : NoInt (validateMatrixApfRefs d pi p) := by
   unfold validateMatrixApfRefs
   split
-  · exact noInt_adm _
+  · exact noInt_adm _ _
   · rename_i hio
     obtain ⟨t, ht⟩ := typeOf_total (p := p) (by simpa using hio)
     rw [ht]
@@ -99,7 +101,7 @@ theorem validateMatrixApfRefs_noInt (d : Doc) (p : Pack) : NoInt (validateMatrix
           · cases hk
           · split at hk
             · rename_i e he; injection hk with hk; subst hk
-              exact forE_noInt (fun e _ => validateEncodeRef_noInt d e) k he
+              exact forE_noInt (fun e _ => validateEncodeRef_noInt d pi e) k he
             · split at hk <;> cases hk
 
 /-- what a successful `_validate_matrix_apf_references` establishes -/
@@ -107,10 +109,10 @@ structure ApfRefsOk (d : Doc) (p : Pack) : Prop where
   typed : ∃ t, typeOf p = .ok t ∧ (t ≠ .decode → p.encodePacks = []) ∧ (t = .decode → p.encodePacks.length = 1)
   inNotMatrix : isMatrixRef d p.input = false
   outNotMatrix : isMatrixRef d p.output = false
-  encodes : ∀ e ∈ p.encodePacks, validateEncodeRef d e = .ok ()
+  encodes : ∀ e ∈ p.encodePacks, ∃ pi, validateEncodeRef d pi e = .ok ()
   noSub : p.packs = []
 
-theorem validateMatrixApfRefs_ok {d : Doc} {p : Pack} (h : validateMatrixApfRefs d p = .ok ()) : ApfRefsOk d p := by
+theorem validateMatrixApfRefs_ok {d : Doc} {pi : Nat} {p : Pack} (h : validateMatrixApfRefs d pi p = .ok ()) : ApfRefsOk d p := by
   unfold validateMatrixApfRefs at h
   split at h
   · cases h
@@ -135,7 +137,7 @@ theorem validateMatrixApfRefs_ok {d : Doc} {p : Pack} (h : validateMatrixApfRefs
                 split at h
                 · cases h
                 · rename_i h5
-                  refine ⟨⟨t, ht, ?_, ?_⟩, by simpa using h1, by simpa using h2, forE_ok he, by simpa using h5⟩
+                  refine ⟨⟨t, ht, ?_, ?_⟩, by simpa using h1, by simpa using h2, fun e hem => ⟨pi, forE_ok he e hem⟩, by simpa using h5⟩
                   · intro hnd
                     have := h3
                     simp only [Bool.and_eq_true, not_and, Bool.not_eq_true'] at this
@@ -189,7 +191,11 @@ theorem elements_coeffs {d : Doc} (h : validateElements d = .ok ()) :
   unfold validateElements at h
   obtain ⟨_, h1, _⟩ := bind_ok h
   intro c hc b hb co hco
-  have := forE_ok (forE_ok (forE_ok h1 c hc) b hb) co hco
+  have hb' := forE_ok (forE_ok h1 c hc) b hb
+  unfold validateBlock at hb'
+  split at hb'
+  · cases hb'
+  have := forE_ok hb' co hco
   split at this
   · cases this
   · rename_i hn
@@ -199,7 +205,7 @@ theorem elements_coeffs {d : Doc} (h : validateElements d = .ok ()) :
 
 /-- first loop of `_validate_matrix_types` succeeded -/
 def MatrixChannelsOk (d : Doc) : Prop :=
-  ∀ c ∈ d.channels, c.type = .matrix → validateMatrixChannel c = .ok ()
+  ∀ c ∈ d.channels, c.type = .matrix → ∃ ci, validateMatrixChannel ci c = .ok ()
 
 /-- the channels of a Matrix pack (after pack/channel type validation, `ADM.validate()` and the first loop of
 `_validate_matrix_types`): exactly one block each, every coefficient has an inputChannelFormat -/
@@ -210,7 +216,8 @@ theorem matrix_pack_channels {d : Doc} (hel : validateElements d = .ok ()) (hct 
   have hpm : d.pack p ∈ d.packs := getD_mem default (lt_of_pack_matrix hp)
   have hty : (d.chan mc).type = .matrix := by rw [packChannelTypes_ok hct _ hpm mc hmcm]; exact hp
   have hcm := chan_mem_of_matrix hty
-  obtain ⟨b, hb, _⟩ := unpack1_singleton (validateMatrixChannel_ok (hmc _ hcm hty))
+  obtain ⟨ci, hci⟩ := hmc _ hcm hty
+  obtain ⟨b, hb, _⟩ := unpack1_singleton (validateMatrixChannel_ok hci)
   refine ⟨b, hb, ?_⟩
   intro co hco
   exact elements_coeffs hel _ hcm b (by rw [hb]; simp) co hco
@@ -226,9 +233,9 @@ theorem inputPackOf_ok {d : Doc} {p : Pack} (h : ApfRefsOk d p) : ∃ ip, inputP
   | encode => obtain ⟨⟨i, hi⟩, _⟩ := typeOf_encode ht; exact ⟨i, by simp [hi]⟩
   | direct => obtain ⟨⟨i, hi⟩, _⟩ := typeOf_direct ht; exact ⟨i, by simp [hi]⟩
 
-theorem validateInputRefsChannel_noInt {d : Doc} {ics : List Nat} {mc : Nat}
+theorem validateInputRefsChannel_noInt {d : Doc} {ip : Nat} {ics : List Nat} {mc : Nat}
     (h : ∃ b, (d.chan mc).blocks = [b] ∧ ∀ co ∈ b.coeffs, ∃ x, co.input = some x) :
-    NoInt (validateInputRefsChannel d ics mc) := by
+    NoInt (validateInputRefsChannel d ip ics mc) := by
   obtain ⟨b, hb, hco⟩ := h
   unfold validateInputRefsChannel
   rw [hb]
@@ -252,8 +259,8 @@ theorem validateMatrixInputRefs_noInt {d : Doc} (hel : validateElements d = .ok 
   rw [packChannels_noSub ha.noSub] at hmcm
   exact validateInputRefsChannel_noInt (matrix_pack_channels hel hct hmc hp mc hmcm)
 
-theorem outputRefsStep_noInt {d : Doc} {opc outs : List Nat} {mc : Nat}
-    (h : ∃ b, (d.chan mc).blocks = [b]) : NoInt (outputRefsStep d opc outs mc) := by
+theorem outputRefsStep_noInt {d : Doc} {pi : Nat} {opc outs : List Nat} {mc : Nat}
+    (h : ∃ b, (d.chan mc).blocks = [b]) : NoInt (outputRefsStep d pi opc outs mc) := by
   obtain ⟨b, hb⟩ := h
   unfold outputRefsStep
   rw [hb]
@@ -280,7 +287,7 @@ theorem validateMatrixOutputRefs_noInt {d : Doc} (hel : validateElements d = .ok
     refine forE_noInt ?_ k
     intro c _; nis
 
-theorem validateNonMatrixPack_noInt (p : Pack) : NoInt (validateNonMatrixPack p) := by
+theorem validateNonMatrixPack_noInt (pi : Nat) (p : Pack) : NoInt (validateNonMatrixPack pi p) := by
   unfold validateNonMatrixPack; nis
 
 theorem validateMatrixPack_noInt {d : Doc} (hel : validateElements d = .ok ())
@@ -293,7 +300,7 @@ theorem validateMatrixPack_noInt {d : Doc} (hel : validateElements d = .ok ())
     have hp : (d.pack pi).type = .matrix := by simpa using hty
     intro k hk
     split at hk
-    · rename_i e he; injection hk with hk; subst hk; exact validateMatrixApfRefs_noInt d _ k he
+    · rename_i e he; injection hk with hk; subst hk; exact validateMatrixApfRefs_noInt d _ _ k he
     · rename_i hapf
       have ha := validateMatrixApfRefs_ok hapf
       split at hk
@@ -312,7 +319,7 @@ theorem validateMatrixPack_noInt {d : Doc} (hel : validateElements d = .ok ())
             | direct => exact (typeOf_direct ht).2
             | encode => simp at hdd
           · cases hk
-  · exact validateNonMatrixPack_noInt _
+  · exact validateNonMatrixPack_noInt _ _
 
 /-- `_validate_matrix_types` raises only `AdmError`: every `type_of`, `[encode_apf] = ...` and
 `[block_format] = ...` in it is guarded by a check that ran before (in any declaration order of the packs) -/
@@ -322,16 +329,16 @@ theorem validateMatrixTypes_noInt {d : Doc} (hel : validateElements d = .ok ())
   intro k hk
   split at hk
   · rename_i e he; injection hk with hk; subst hk
-    refine forE_noInt (l := d.channels) ?_ k he
-    intro c _
+    refine forEI_noInt (l := d.channels) ?_ 0 k he
+    intro ci c _
     split
-    · exact validateMatrixChannel_noInt c
+    · exact validateMatrixChannel_noInt ci c
     · exact noInt_ok ()
   · rename_i h1
     have hmc : MatrixChannelsOk d := by
       intro c hc hty
-      have := forE_ok h1 c hc
-      simpa [hty] using this
+      obtain ⟨ci, this⟩ := forEI_ok 0 h1 c hc
+      exact ⟨ci, by simpa [hty] using this⟩
     exact forE_noInt (fun pi _ => validateMatrixPack_noInt hel hct hmc pi) k hk
 
 /-! ### what a successful `_validate_matrix_types` establishes for one Matrix pack -/
@@ -342,8 +349,8 @@ structure MatrixOutOk (d : Doc) (pi o : Nat) : Prop where
   chans : ∀ mc ∈ (d.pack pi).channels, ∃ b oc, (d.chan mc).blocks = [b] ∧ b.outCh = some oc ∧ oc ∈ packChannels d o
   covered : ∀ c ∈ packChannels d o, ∃ mc ∈ (d.pack pi).channels, ∃ b, (d.chan mc).blocks = [b] ∧ b.outCh = some c
 
-theorem outputRefs_fold {d : Doc} {opc : List Nat} :
-    ∀ (l : List Nat) (acc outs : List Nat), foldE l acc (outputRefsStep d opc) = .ok outs →
+theorem outputRefs_fold {d : Doc} {pi : Nat} {opc : List Nat} :
+    ∀ (l : List Nat) (acc outs : List Nat), foldE l acc (outputRefsStep d pi opc) = .ok outs →
       (∀ mc ∈ l, ∃ b oc, (d.chan mc).blocks = [b] ∧ b.outCh = some oc ∧ oc ∈ opc) ∧
       (∀ x ∈ outs, x ∈ acc ∨ ∃ mc ∈ l, ∃ b, (d.chan mc).blocks = [b] ∧ b.outCh = some x) := by
   intro l
@@ -356,7 +363,7 @@ theorem outputRefs_fold {d : Doc} {opc : List Nat} :
   | cons mc t ih =>
     intro acc outs h
     unfold foldE at h
-    cases hs : outputRefsStep d opc acc mc with
+    cases hs : outputRefsStep d pi opc acc mc with
     | error e => rw [hs] at h; cases h
     | ok acc' =>
       rw [hs] at h; simp only at h
@@ -425,7 +432,7 @@ structure MatrixPackOk (d : Doc) (pi : Nat) : Prop where
       ∀ co ∈ b.coeffs, ∃ c, co.input = some c ∧ c ∈ packChannels d ip
   outputs : ∀ t, typeOf (d.pack pi) = .ok t → t ≠ .encode → ∃ o, MatrixOutOk d pi o
 
-theorem inputRefsChannel_ok {d : Doc} {ics : List Nat} {mc : Nat} (h : validateInputRefsChannel d ics mc = .ok ()) :
+theorem inputRefsChannel_ok {d : Doc} {ip : Nat} {ics : List Nat} {mc : Nat} (h : validateInputRefsChannel d ip ics mc = .ok ()) :
     ∃ b, (d.chan mc).blocks = [b] ∧ ∀ co ∈ b.coeffs, ∃ c, co.input = some c ∧ c ∈ ics := by
   unfold validateInputRefsChannel at h
   cases hbl : (d.chan mc).blocks with
@@ -483,12 +490,12 @@ theorem find_ne_none_iff {d : Doc} {a : Nat} {objs : List Nat} :
   rw [← Option.isSome_iff_ne_none, List.find?_isSome]
   simp
 
-theorem validateAvsContained_noInt (d : Doc) (refs objs : List Nat) : NoInt (validateAvsContained d refs objs) := by
+theorem validateAvsContained_noInt (d : Doc) (who : Acc) (refs objs : List Nat) : NoInt (validateAvsContained d who refs objs) := by
   unfold validateAvsContained
   refine forE_noInt ?_
   intro a _; nis
 
-theorem validateAvsContained_ok {d : Doc} {refs objs : List Nat} (h : validateAvsContained d refs objs = .ok ()) :
+theorem validateAvsContained_ok {d : Doc} {who : Acc} {refs objs : List Nat} (h : validateAvsContained d who refs objs = .ok ()) :
     ∀ a ∈ refs, ∃ o ∈ objs, a ∈ (d.obj o).avs := by
   intro a ha
   have := forE_ok h a ha
@@ -497,8 +504,8 @@ theorem validateAvsContained_ok {d : Doc} {refs objs : List Nat} (h : validateAv
   · rename_i hn
     exact find_ne_none_iff.mp (by intro hc; rw [hc] at hn; simp at hn)
 
-theorem avsConflictStep_noInt {d : Doc} {objs : List Nat} {seen : List (Nat × Option Nat × Nat)}
-    {x : Option Nat × Nat} (h : ∃ o ∈ objs, x.2 ∈ (d.obj o).avs) : NoInt (avsConflictStep d objs seen x) := by
+theorem avsConflictStep_noInt {d : Doc} {pi : Nat} {objs : List Nat} {seen : List (Nat × Option Nat × Nat)}
+    {x : Option Nat × Nat} (h : ∃ o ∈ objs, x.2 ∈ (d.obj o).avs) : NoInt (avsConflictStep d pi objs seen x) := by
   unfold avsConflictStep
   cases hf : findObjectForAvs d x.2 objs with
   | none => exact absurd hf (find_ne_none_iff.mpr h)
@@ -512,9 +519,9 @@ theorem contentObjects_sub_programme {d : Doc} {P : Programme} {c : Nat} (hc : c
 
 /-- every pair the conflict check looks at was shown to belong to one of the programme's objects by the two
 `contained` checks — this is what makes `assert obj is not None` safe -/
-theorem avsPairs_found {d : Doc} {P : Programme}
-    (h1 : validateAvsContained d P.avs (programmeObjects d P) = .ok ())
-    (h2 : forE P.contents (fun c => validateAvsContained d (d.content c).avs (contentObjects d c)) = .ok ()) :
+theorem avsPairs_found {d : Doc} {P : Programme} {w1 : Acc} {w2 : Nat → Acc}
+    (h1 : validateAvsContained d w1 P.avs (programmeObjects d P) = .ok ())
+    (h2 : forE P.contents (fun c => validateAvsContained d (w2 c) (d.content c).avs (contentObjects d c)) = .ok ()) :
     ∀ x ∈ avsPairs d P, ∃ o ∈ programmeObjects d P, x.2 ∈ (d.obj o).avs := by
   intro x hx
   unfold avsPairs at hx
@@ -526,15 +533,15 @@ theorem avsPairs_found {d : Doc} {P : Programme}
     obtain ⟨o, ho, hao⟩ := validateAvsContained_ok (forE_ok h2 c hc) a ha
     exact ⟨o, contentObjects_sub_programme hc o ho, hao⟩
 
-theorem validateAvsProgramme_noInt (d : Doc) (P : Programme) : NoInt (validateAvsProgramme d P) := by
+theorem validateAvsProgramme_noInt (d : Doc) (pi : Nat) (P : Programme) : NoInt (validateAvsProgramme d pi P) := by
   unfold validateAvsProgramme
   intro k hk
   split at hk
-  · rename_i e he; injection hk with hk; subst hk; exact validateAvsContained_noInt d _ _ k he
+  · rename_i e he; injection hk with hk; subst hk; exact validateAvsContained_noInt d _ _ _ k he
   · rename_i h1
     split at hk
     · rename_i e he; injection hk with hk; subst hk
-      exact forE_noInt (fun c _ => validateAvsContained_noInt d _ _) k he
+      exact forE_noInt (fun c _ => validateAvsContained_noInt d _ _ _) k he
     · rename_i h2
       split at hk
       · rename_i e he; injection hk with hk; subst hk
@@ -544,7 +551,7 @@ theorem validateAvsProgramme_noInt (d : Doc) (P : Programme) : NoInt (validateAv
       · cases hk
 
 theorem validateAvsReferences_noInt (d : Doc) : NoInt (validateAvsReferences d) :=
-  forE_noInt (fun P _ => validateAvsProgramme_noInt d P)
+  forEI_noInt (fun pi P _ => validateAvsProgramme_noInt d pi P) 0
 
 /-! ### `_get_alternativeValueSet`: the assert cannot fail after `_validate_avs_references` -/
 
@@ -578,9 +585,9 @@ def avsKeys (d : Doc) (objs : List Nat) (l : List (Option Nat × Nat)) : List (O
   l.map (fun x => findObjectForAvs d x.2 objs)
 
 /-- a successful conflict check never met the same object twice -/
-theorem avsFold_keys {d : Doc} {objs : List Nat} :
+theorem avsFold_keys {d : Doc} {pi : Nat} {objs : List Nat} :
     ∀ (l : List (Option Nat × Nat)) (seen seen' : List (Nat × Option Nat × Nat)),
-      foldE l seen (avsConflictStep d objs) = .ok seen' →
+      foldE l seen (avsConflictStep d pi objs) = .ok seen' →
       ∀ o, List.count (some o) (avsKeys d objs l) ≤ (if o ∈ seen.map (·.1) then 0 else 1) := by
   intro l
   induction l with
@@ -588,7 +595,7 @@ theorem avsFold_keys {d : Doc} {objs : List Nat} :
   | cons x l ih =>
     intro seen seen' h o
     unfold foldE at h
-    cases hs : avsConflictStep d objs seen x with
+    cases hs : avsConflictStep d pi objs seen x with
     | error e => rw [hs] at h; cases h
     | ok seen1 =>
       rw [hs] at h; simp only at h
@@ -682,7 +689,7 @@ theorem avsAssertLoop_noInt (oavs : List Nat) :
 
 /-- after `_validate_avs_references` accepted programme `P`: of the alternativeValueSets referenced by `P` and by
 one of its contents at most one belongs to a given object below `P` -/
-theorem avs_refs_unique {d : Doc} (hown : d.avsOwned = true) {P : Programme} (hP : validateAvsProgramme d P = .ok ())
+theorem avs_refs_unique {d : Doc} (hown : d.avsOwned = true) {pi : Nat} {P : Programme} (hP : validateAvsProgramme d pi P = .ok ())
     {O c : Nat} (hO : O ∈ programmeObjects d P) (hc : c ∈ P.contents) :
     List.countP (fun a => (d.obj O).avs.contains a) (P.avs ++ (d.content c).avs) ≤ 1 := by
   unfold validateAvsProgramme at hP
@@ -762,7 +769,7 @@ theorem elements_tf {d : Doc} (h : validateElements d = .ok ()) :
   obtain ⟨_, _, h⟩ := bind_ok h
   obtain ⟨_, _, h2⟩ := bind_ok h
   intro t ht
-  have := forE_ok h2 t ht
+  obtain ⟨i, this⟩ := forEI_ok 0 h2 t ht
   split at this
   · cases this
   · rename_i hn; simpa [Option.isSome_iff_ne_none] using hn
@@ -770,7 +777,7 @@ theorem elements_tf {d : Doc} (h : validateElements d = .ok ()) :
 theorem trackOrChannel_ok {d : Doc} (h : validateTrackOrChannel d = .ok ()) :
     ∀ u ∈ d.trackUIDs, ¬(u.trackFormat.isNone = true ∧ u.channel.isNone = true) := by
   intro u hu
-  have := forE_ok h u hu
+  obtain ⟨i, this⟩ := forEI_ok 0 h u hu
   split at this
   · cases this
   · rename_i hn; simpa using hn
@@ -829,22 +836,85 @@ theorem packFormatPathOpt_ok {d : Doc} {o : Nat} {oc : Option Nat} {x : List Nat
     · injection h with h; rw [← h]
     · cases h
 
+theorem unpack1_ok_mem {α : Type} {l : List α} {x : α} (h : unpack1 l = .ok x) : x ∈ l := by
+  cases l with
+  | nil => cases h
+  | cons a t => cases t with
+    | nil => simp only [unpack1] at h; injection h with h; subst h; simp
+    | cons _ _ => cases h
+
+/-- the path found by `_get_pack_format_path` is one of `pack_format_paths_from(...)`, hence not empty -/
+theorem packFormatPathOpt_path_ne {d : Doc} {o : Nat} {oc : Option Nat} {x : List Nat × Nat}
+    (h : packFormatPathOpt d o oc = .ok x) : x.1 ≠ [] := by
+  unfold packFormatPathOpt at h
+  split at h
+  · cases h
+  · split at h
+    · rename_i path hp
+      injection h with h; subst h
+      unfold packFormatPath at hp
+      have := (List.mem_filter.mp (unpack1_ok_mem hp)).1
+      exact pathsFrom_ne_nil _ _ _ _ this
+    · cases h
+
+theorem minNonempty_noInt {α : Type} {l : List α} (h : l ≠ []) : NoInt (minNonempty l) := by
+  unfold minNonempty
+  cases l with
+  | nil => exact absurd rfl h
+  | cons a t => exact noInt_ok ()
+
+/-- `_get_importance`: both `min(...)` range over non-empty paths -/
+theorem importanceOf_noInt {op : Option (List Nat)} {pp : List Nat} (hop : ∀ p, op = some p → p ≠ [])
+    (hpp : pp ≠ []) : NoInt (importanceOf op pp) := by
+  unfold importanceOf
+  cases op with
+  | none => simp only; exact minNonempty_noInt hpp
+  | some p =>
+    simp only
+    have := minNonempty_noInt (hop p rfl)
+    intro k hk
+    split at hk
+    · rename_i e he; injection hk with hk; subst hk; exact this k he
+    · exact minNonempty_noInt hpp k hk
+
+theorem absDistGet_noInt (d : Doc) (path : List Nat) (c : Nat) : NoInt (absDistGet d path c) := by
+  unfold absDistGet
+  exact pathParam_noInt _ (by simp)
+
+/-- `_get_extra_data`: `get_single_param(..., "absoluteDistance", ...)` (its message's `path[0]`, `path[-1]`
+included) and `_get_alternativeValueSet` raise nothing but `AdmError` -/
+theorem extraData_noInt {d : Doc} {extra : R Unit} (hx : NoInt extra) {ppc : List (List Nat × Nat)} (hne : ppc ≠ []) :
+    NoInt (extraData d extra ppc) := by
+  unfold extraData
+  intro k hk
+  split at hk
+  · rename_i e he; injection hk with hk; subst hk
+    exact getSingleParam_noInt (fun x _ => absDistGet_noInt d x.1 x.2) hne k he
+  · exact hx k hk
+
 /-- `_get_rendering_items` for an output pack `o` and allocated channels that all lie in `o` -/
-theorem singleChannel_noInt {d : Doc} {extra : R Unit} (hx : NoInt extra) (hu : uniquePaths d = true) {o : Nat}
+theorem singleChannel_noInt {d : Doc} {extra : R Unit} (hx : NoInt extra) {op : Option (List Nat)}
+    (hop : ∀ p, op = some p → p ≠ []) (hu : uniquePaths d = true) {o : Nat}
     (ho : o < d.packs.length) {oc : Option Nat} (h : ∃ c, oc = some c ∧ c ∈ packChannels d o) :
-    NoInt (singleChannel d extra o oc) := by
+    NoInt (singleChannel d extra op o oc) := by
   unfold singleChannel
   intro k hk
   split at hk
   · rename_i e he; injection hk with hk; subst hk; exact packFormatPathOpt_noInt hu ho h k he
-  · cases hxe : extra with
-    | ok u => rw [hxe] at hk; cases hk
-    | error e => rw [hxe] at hk; simp only at hk; injection hk with hk; subst hk; exact hx k hxe
+  · rename_i x hxp
+    split at hk
+    · rename_i e he; injection hk with hk; subst hk
+      exact extraData_noInt hx (by simp) k he
+    · split at hk
+      · rename_i e he; injection hk with hk; subst hk
+        exact importanceOf_noInt hop (packFormatPathOpt_path_ne hxp) k he
+      · cases hk
 
-theorem itemsFor_noInt {d : Doc} {extra : R Unit} (hx : NoInt extra) (hs : StructOk d) (hu : uniquePaths d = true)
+theorem itemsFor_noInt {d : Doc} {extra : R Unit} (hx : NoInt extra) {op : Option (List Nat)}
+    (hop : ∀ p, op = some p → p ≠ []) (hs : StructOk d) (hu : uniquePaths d = true)
     {o : Nat} (ho : o < d.packs.length)
     {chans : List (Option Nat)} (hch : ∀ oc ∈ chans, ∃ c, oc = some c ∧ c ∈ packChannels d o)
-    (hne : (d.pack o).type = .hoa → chans ≠ []) : NoInt (itemsFor d extra o chans) := by
+    (hne : (d.pack o).type = .hoa → chans ≠ []) : NoInt (itemsFor d extra op o chans) := by
   unfold itemsFor
   cases hT : (d.pack o).type with
   | objects | directSpeakers =>
@@ -853,7 +923,7 @@ theorem itemsFor_noInt {d : Doc} {extra : R Unit} (hx : NoInt extra) (hs : Struc
     split at hk
     · cases hk
     · rename_i e he; injection hk with hk; subst hk
-      exact mapE_noInt (fun oc hoc => singleChannel_noInt hx hu ho (hch oc hoc)) k he
+      exact mapE_noInt (fun oc hoc => singleChannel_noInt hx hop hu ho (hch oc hoc)) k he
   | hoa =>
     simp only
     intro k hk
@@ -878,16 +948,18 @@ theorem itemsFor_noInt {d : Doc} {extra : R Unit} (hx : NoInt extra) (hs : Struc
         rw [hnil] at hlen
         exact hne hT (List.eq_nil_of_length_eq_zero hlen.symm)
       split at hk
-      · rename_i e he; injection hk with hk; subst hk; exact hoaParams_noInt hone hnil k he
-      · cases ppc with
-        | nil => exact hnil rfl
-        | cons a t =>
-          simp only [first] at hk
-          cases hxe : extra with
-          | ok u => rw [hxe] at hk; cases hk
-          | error e => rw [hxe] at hk; simp only at hk; injection hk with hk; subst hk; exact hx k hxe
-  | matrix => exact noInt_adm _
-  | binaural => exact noInt_adm _
+      · rename_i e he; injection hk with hk; subst hk; exact hoaItemParams_noInt hone hnil k he
+      · split at hk
+        · rename_i e he; injection hk with hk; subst hk; exact extraData_noInt hx hnil k he
+        · split at hk
+          · rename_i e he; injection hk with hk; subst hk
+            refine forE_noInt (l := ppc) ?_ k he
+            intro x hx
+            obtain ⟨oc, _, hfc⟩ := hmem x hx
+            exact importanceOf_noInt hop (packFormatPathOpt_path_ne hfc)
+          · cases hk
+  | matrix => exact noInt_adm _ _
+  | binaural => exact noInt_adm _ _
 
 theorem hoa_pack_channels_ne_nil {d : Doc} (hs : StructOk d) {o : Nat} (ho : o < d.packs.length)
     (hT : (d.pack o).type = .hoa) : packChannels d o ≠ [] := by
@@ -926,7 +998,8 @@ theorem decode_encode_input {d : Doc} {pi : Nat} (hm : MatrixPackOk d pi) (ht : 
   obtain ⟨t, ht', _, hdec⟩ := hm.apf.typed
   rw [ht] at ht'; injection ht' with ht'; subst ht'
   obtain ⟨e, he, hu⟩ := unpack1_singleton (hdec rfl)
-  obtain ⟨hty, hte⟩ := validateEncodeRef_ok (hm.apf.encodes e (by rw [he]; simp))
+  obtain ⟨pi', hpe⟩ := hm.apf.encodes e (by rw [he]; simp)
+  obtain ⟨hty, hte⟩ := validateEncodeRef_ok hpe
   obtain ⟨⟨ii, hii⟩, _⟩ := typeOf_encode hte
   exact ⟨e, ii, he, hu, hty, hte, hii⟩
 
@@ -1049,11 +1122,12 @@ theorem ws_pack_output {d : Doc} (h : d.wellScoped = true) :
   simp only [Doc.wellScoped, Bool.and_eq_true, List.all_eq_true] at h
   exact (h.1.1.1.1.2 p hp).2
 
-theorem renderingItems_matrix_noInt {d : Doc} {extra : R Unit} (hx : NoInt extra) (hw : d.wellScoped = true)
+theorem renderingItems_matrix_noInt {d : Doc} {extra : R Unit} (hx : NoInt extra) {op : Option (List Nat)}
+    (hop : ∀ p, op = some p → p ≠ []) (hw : d.wellScoped = true)
     (hs : StructOk d) (hu : uniquePaths d = true) {pi : Nat} {alloc : List Nat} {t : MType}
     (hp : (d.pack pi).type = .matrix) (ht : typeOf (d.pack pi) = .ok t) (hne : t ≠ .encode)
     (hres : ∀ mc ∈ (d.pack pi).channels, ResN d alloc 2 mc) :
-    NoInt (renderingItems d extra ⟨pi, true, alloc, pfs⟩) := by
+    NoInt (renderingItems d extra op ⟨pi, true, alloc, pfs⟩) := by
   have hm := matrixPackOk_of_struct hs hp
   obtain ⟨o, hout⟩ := hm.outputs t ht hne
   have hpm : d.pack pi ∈ d.packs := getD_mem default (lt_of_pack_matrix hp)
@@ -1081,7 +1155,7 @@ theorem renderingItems_matrix_noInt {d : Doc} {extra : R Unit} (hx : NoInt extra
     rw [hout.out] at hk
     simp only at hk
     obtain ⟨hlen, hmem⟩ := mapE_ok_mem houts
-    refine itemsFor_noInt hx hs hu ho ?_ ?_ k hk
+    refine itemsFor_noInt hx hop hs hu ho ?_ ?_ k hk
     · intro oc hoc
       obtain ⟨mc, hmc, hf⟩ := hmem oc hoc
       obtain ⟨b, c, hb, hbo, hc⟩ := hout.chans mc hmc
@@ -1101,14 +1175,15 @@ theorem renderingItems_matrix_noInt {d : Doc} {extra : R Unit} (hx : NoInt extra
       cases hmc
 
 /-- one allocated pack of the unique solution: `output_channel_allocation` and `_get_rendering_items` are total -/
-theorem renderingItems_noInt {d : Doc} {extra : R Unit} (hx : NoInt extra) (hw : d.wellScoped = true)
+theorem renderingItems_noInt {d : Doc} {extra : R Unit} (hx : NoInt extra) {op : Option (List Nat)}
+    (hop : ∀ p, op = some p → p ≠ []) (hw : d.wellScoped = true)
     (hs : StructOk d) (hu : uniquePaths d = true)
-    {pat : Pattern} (hpat : PatOk d pat) : NoInt (renderingItems d extra pat) := by
+    {pat : Pattern} (hpat : PatOk d pat) : NoInt (renderingItems d extra op pat) := by
   cases hpat with
   | regular pi hpi hty =>
     unfold renderingItems
     simp only [Bool.false_eq_true, if_false]
-    refine itemsFor_noInt hx hs hu hpi ?_ ?_
+    refine itemsFor_noInt hx hop hs hu hpi ?_ ?_
     · intro oc hoc
       obtain ⟨c, hc, rfl⟩ := List.mem_map.mp hoc
       exact ⟨c, rfl, hc⟩
@@ -1118,7 +1193,7 @@ theorem renderingItems_noInt {d : Doc} {extra : R Unit} (hx : NoInt extra) (hw :
     have hm := matrixPackOk_of_struct hs hp
     obtain ⟨ip', hip', hch⟩ := hm.inputs
     rw [hip] at hip'; injection hip' with hip'; subst hip'
-    refine renderingItems_matrix_noInt hx hw hs hu hp ht hne ?_
+    refine renderingItems_matrix_noInt hx hop hw hs hu hp ht hne ?_
     intro mc hmc
     obtain ⟨b, hb, hco⟩ := hch mc hmc
     right
@@ -1128,7 +1203,7 @@ theorem renderingItems_noInt {d : Doc} {extra : R Unit} (hx : NoInt extra) (hw :
     exact ⟨c, hc, Or.inl hcin⟩
   | matrixPre pi t hp ht hne =>
     have hm := matrixPackOk_of_struct hs hp
-    refine renderingItems_matrix_noInt hx hw hs hu hp ht hne ?_
+    refine renderingItems_matrix_noInt hx hop hw hs hu hp ht hne ?_
     intro mc hmc
     left
     rw [packChannels_noSub hm.apf.noSub]
@@ -1154,7 +1229,7 @@ theorem renderingItems_noInt {d : Doc} {extra : R Unit} (hx : NoInt extra) (hw :
       simp only [hii] at hipe
       injection hipe with hipe; exact hipe.symm
     subst hipe'
-    refine renderingItems_matrix_noInt hx hw hs hu hp ht (by simp) ?_
+    refine renderingItems_matrix_noInt hx hop hw hs hu hp ht (by simp) ?_
     intro mc hmc
     obtain ⟨b, hb, hco⟩ := hch mc hmc
     right
@@ -1219,6 +1294,28 @@ theorem selectStates_ok {d : Doc} {prog : Option Nat} {states : List State} (h :
           unfold contentObjects objsBelow
           exact List.mem_flatMap.mpr ⟨r, hr, List.mem_map.mpr ⟨path, hpath, rfl⟩⟩
 
+/-- the `audioObjects` path of a yielded state is one of `object_paths_from(...)`, hence not empty (what
+`_get_importance`'s `min(...)` needs) -/
+theorem selectStates_objpath_ne {d : Doc} {prog : Option Nat} {states : List State} (h : selectStates d prog = .ok states) :
+    ∀ st ∈ states, ∀ p, st.objects = some p → p ≠ [] := by
+  unfold selectStates at h
+  split at h
+  · injection h with h; subst h
+    intro st hst p hp
+    simp only [List.mem_singleton] at hst
+    subst hst
+    cases hp
+  · split at h
+    · cases h
+    · injection h with h; subst h
+      intro st hst p hp
+      obtain ⟨c, _, hst⟩ := List.mem_flatMap.mp hst
+      obtain ⟨r, _, hst⟩ := List.mem_flatMap.mp hst
+      obtain ⟨path, hpath, rfl⟩ := List.mem_map.mp hst
+      simp only [Option.some.injEq] at hp
+      subst hp
+      exact pathsFrom_ne_nil _ _ _ _ hpath
+
 /-- `_get_alternativeValueSet`'s assert ("already checked in validation") cannot fail -/
 theorem avsSelected_noInt {d : Doc} (hs : StructOk d) (hown : d.avsOwned = true) {st : State} (hst : StateOk d st) :
     NoInt (avsSelected d st) := by
@@ -1232,7 +1329,7 @@ theorem avsSelected_noInt {d : Doc} (hs : StructOk d) (hown : d.avsOwned = true)
       exact noInt_ok ()
   · simp only
     have hPm : d.programme p ∈ d.programmes := getD_mem default hp
-    have hP := forE_ok hs.avs _ hPm
+    obtain ⟨pi, hP⟩ := forEI_ok 0 hs.avs _ hPm
     refine avsAssertLoop_noInt _ _ none (fun _ => ?_) (fun h => absurd rfl h)
     exact avs_refs_unique hown hP (contentObjects_sub_programme hc _ hO) hc
 
